@@ -203,7 +203,8 @@ func (c *Check) Finish(seed int) int {
 	}
 	broken := []string{}
 	for _, r := range c.Rules {
-		if r.Sites < r.Floor {
+		// a rule that reported a violation is not vacuous: its early exit explains the low count
+		if r.Sites < r.Floor && r.Violations == 0 {
 			broken = append(broken, fmt.Sprintf("rule %s matched %d site(s), floor is %d (vacuous rule: checker out of date with the tree)", r.ID, r.Sites, r.Floor))
 		}
 	}
@@ -245,7 +246,7 @@ func (c *Check) Finish(seed int) int {
 	}
 	// evidence
 	total, okc, nontriv := 0, 0, 0
-	var samples []interface{}
+	samples := []interface{}{}
 	distinct := map[string]bool{}
 	for _, o := range c.Obs {
 		total++
